@@ -422,6 +422,29 @@ fn minimise_c15(mut doc: serde_json::Value, path: &str) -> i32 {
     0
 }
 
+fn replay_g(o: &Opts, doc: &serde_json::Value, path: &str) -> i32 {
+    let Some(case) = doc.get("program").and_then(Case::from_json) else { return 2 };
+    let debug = doc.get("debug").and_then(|d| d.as_bool()).unwrap_or(false);
+    let exact = doc.get("exact_index").and_then(|d| d.as_u64()).unwrap_or(0) as usize;
+    let sup = doc.get("superset_index").and_then(|d| d.as_u64()).unwrap_or(0) as usize;
+    let dir = scratch(o);
+    let a = fresh_reference(&dir, &case, exact, debug);
+    let b = fresh_reference(&dir, &case, sup, debug);
+    let _ = std::fs::remove_dir_all(&dir);
+    match (a, b) {
+        (Some(a @ Outcome::Ok { .. }), Some(b @ Outcome::Ok { .. })) if a.key() != b.key() => {
+            println!("replay: MISMATCH(ExtraArgs) - exact {} superset {}", a.key(), b.key());
+            println!("VIOLATION property=C19 replay={path}");
+            1
+        }
+        (Some(_), Some(_)) => {
+            println!("replay: no violation");
+            0
+        }
+        _ => 2,
+    }
+}
+
 pub fn run(o: &Opts, minimise: bool) -> i32 {
     let Some(path) = o.rest.first().cloned() else {
         eprintln!("usage: simreal replay|minimise <file>");
@@ -438,6 +461,8 @@ pub fn run(o: &Opts, minimise: bool) -> i32 {
         (Some("C"), false) => replay_c(o, &doc, &path),
         (Some("C"), true) => minimise_c(o, doc, &path),
         (Some("C15"), false) => replay_c15(&doc, &path),
+        (Some("G"), false) => replay_g(o, &doc, &path),
+        (Some("G"), true) => 0,
         (Some("C15"), true) => minimise_c15(doc, &path),
         _ => {
             eprintln!("unknown leg in {path}");
